@@ -4,7 +4,6 @@ import (
 	"github.com/New-JAMneration/JAM-Protocol/internal/blockchain"
 	"github.com/New-JAMneration/JAM-Protocol/internal/safrole"
 	"github.com/New-JAMneration/JAM-Protocol/internal/types"
-	ReportsErrorCode "github.com/New-JAMneration/JAM-Protocol/internal/types/error_codes/reports"
 	"github.com/New-JAMneration/JAM-Protocol/internal/utilities/shuffle"
 )
 
@@ -63,8 +62,9 @@ func NewGuranatorAssignments(
 ) GuranatorAssignments {
 	// 1. get the core assignments
 	coreAssignments := permute(epochEntropy, currentSlot)
-	// 2. get the public keys
-	result := safrole.ReplaceOffenderKeys(validators)
+	// 2. get the public keys: Φ (6.14) works on a copy, the validator set handed in (κ′ / λ′ of the
+	// store) keeps its keys
+	result := safrole.ReplaceOffenderKeys(append(types.ValidatorsData(nil), validators...))
 	pubKeys := make([]types.Validator, len(result))
 
 	for i, v := range result {
@@ -82,6 +82,8 @@ func NewGuranatorAssignments(
 
 // (11.21) G(e, t, k) = (P(e, t), H_K)
 // G ≡ (P (η′2, τ ′), Φ(κ′))
+// Offenders keep their seat with a null key (Φ); a guarantee is refused only when one of its own
+// credentials belongs to such a validator (ValidateSignatures), so the offenders map is not consulted here.
 func GFunc(offendersMap map[types.Ed25519Public]bool) (GuranatorAssignments, error) {
 	state := blockchain.GetInstance().GetPosteriorStates()
 	etaPrime := state.GetEta()
@@ -89,13 +91,6 @@ func GFunc(offendersMap map[types.Ed25519Public]bool) (GuranatorAssignments, err
 	// (η′2, κ′)
 	e := etaPrime[2]
 	validators := state.GetKappa()
-
-	for _, validator := range validators {
-		if _, offenderExists := offendersMap[validator.Ed25519]; offenderExists {
-			err := ReportsErrorCode.BannedValidator
-			return GuranatorAssignments{}, &err
-		}
-	}
 
 	return NewGuranatorAssignments(e, state.GetTau(), validators), nil
 }
@@ -111,22 +106,10 @@ func GStarFunc(offendersMap map[types.Ed25519Public]bool) (GuranatorAssignments,
 		// (η′2, κ′)
 		e = etaPrime[2]
 		validators = state.GetKappa()
-		for _, validator := range validators {
-			if _, offenderExists := offendersMap[validator.Ed25519]; offenderExists {
-				err := ReportsErrorCode.BannedValidator
-				return GuranatorAssignments{}, &err
-			}
-		}
 	} else {
 		// (η′3, λ′)
 		e = etaPrime[3]
 		validators = state.GetLambda()
-		for _, validator := range validators {
-			if _, offenderExists := offendersMap[validator.Ed25519]; offenderExists {
-				err := ReportsErrorCode.BannedValidator
-				return GuranatorAssignments{}, &err
-			}
-		}
 	}
 
 	return NewGuranatorAssignments(e, state.GetTau()-types.TimeSlot(types.RotationPeriod), validators), nil
